@@ -261,7 +261,7 @@ def oracles(ctx, deep):
             continue
         for t in range(trials):
             n = rng.randint(2, 4)
-            c = rng.randint(2, 4)
+            c = rng.choice([2, 3, 4, 5, 6, 7])  # also coil counts that are not a multiple of a chunk size
             for _ in range(50):
                 h, w = rng.randint(6, 20), rng.randint(6, 20)
                 if zoo.admissible(e, h, w, c):
